@@ -59,9 +59,18 @@ def mk_scorer(kind, shared=None):
     }[kind]()
 
 
-def mk_det(kind, prm, cost=None):
+def mk_inner():
+    """the change detector object that several anomalisers of one history are constructed with (tuned threshold:
+    its fitted state depends on the data)"""
+    from skchange.change_detectors import MovingWindow
+
+    return MovingWindow(bandwidth=3, threshold_scale=None)
+
+
+def mk_det(kind, prm, cost=None, inner=None):
     from skchange.anomaly_detectors import CAPA, MVCAPA, CircularBinarySegmentation, StatThresholdAnomaliser
     from skchange.change_detectors import PELT, MovingWindow, SeededBinarySegmentation
+    from skchange.costs import GaussianVarCost
 
     s, m = prm["scale"], prm["m"]
     if kind == "pelt":
@@ -73,10 +82,14 @@ def mk_det(kind, prm, cost=None):
     if kind == "cbs":
         return CircularBinarySegmentation(cost, threshold_scale=s, min_segment_length=m)
     sc = s if s is not None else 0.7
+    sav = GaussianVarCost(param=(0.0, 1.0)) if prm.get("saving") == "gvar" else None
     if kind == "capa":
-        return CAPA(collective_penalty_scale=sc, point_penalty_scale=sc, min_segment_length=max(m, 2))
+        return CAPA(sav, collective_penalty_scale=sc, point_penalty_scale=sc, min_segment_length=max(m, 2))
     if kind == "mvcapa":
-        return MVCAPA(collective_penalty_scale=sc, point_penalty_scale=sc, min_segment_length=max(m, 2))
+        return MVCAPA(sav, collective_penalty=prm.get("cfam", "combined"), point_penalty=prm.get("pfam", "sparse"),
+                      collective_penalty_scale=sc, point_penalty_scale=sc, min_segment_length=max(m, 2))
+    if prm.get("inner") == "shared":
+        return StatThresholdAnomaliser(inner if inner is not None else mk_inner(), stat=np.mean, stat_lower=-1.0, stat_upper=1.0)
     return StatThresholdAnomaliser(PELT(min_segment_length=m, penalty_scale=sc), stat=np.mean, stat_lower=-1.0, stat_upper=1.0)
 
 
@@ -98,7 +111,14 @@ def gen_history(rng, length):
     shared_cost = rng.random() < 0.6
     for i in range(rng.randint(2, 4)):
         kind = rng.choice(DET_KINDS)
-        objs.append({"type": "det", "kind": kind, "prm": {"scale": rng.choice([0.5, 1.0, None]), "m": rng.randint(1, 3)},
+        prm = {"scale": rng.choice([0.5, 1.0, None]), "m": rng.randint(1, 3)}
+        if kind in ("capa", "mvcapa"):  # savings with different numbers of parameters; all penalty families
+            prm["saving"] = rng.choice([None, "gvar"])
+            if kind == "mvcapa":
+                prm["cfam"], prm["pfam"] = rng.choice(["combined", "sparse", "dense"]), rng.choice(["combined", "sparse", "dense"])
+        if kind == "stat":  # anomalisers may be handed one and the same change detector object
+            prm["inner"] = rng.choice(["own", "shared", "shared"])
+        objs.append({"type": "det", "kind": kind, "prm": prm,
                      "share": shared_cost and kind in ("pelt", "mw", "sbs", "cbs") and rng.random() < 0.7})
     for i in range(rng.randint(1, 3)):
         kind = rng.choice(SCORER_KINDS)
@@ -123,6 +143,27 @@ def gen_history(rng, length):
                     (rng.choice(["transform_scores", "predict", "transform"]), same[2]), (rng.choice(["transform_scores", "transform"]), same[0])]
             for op, xi in tail:
                 ops.append({"o": o, "op": op, "X": xi, "arg": 1.0, "cut": 10, "ov": 0})
+    # pairs of objects that interact only through something they share: one change detector object handed to two
+    # anomalisers; two MVCAPA detectors that differ in the saving's parameter count but agree in (n, p, scale), so that
+    # anything memoised per (n, p, scale) at module level would be handed from one to the other
+    scen = rng.choice([None, None, "stat-pair", "mvcapa-pair"])
+    if scen:
+        a, b = len(objs), len(objs) + 1
+        if scen == "stat-pair":
+            for _ in range(2):
+                objs.append({"type": "det", "kind": "stat", "prm": {"scale": 1.0, "m": 2, "inner": "shared"}, "share": False})
+            xa, xb = rng.sample([0, 2, 5], 2)
+        else:
+            sc = rng.choice([0.5, 1.0])
+            fam = rng.choice(["intermediate", "intermediate", "combined"])
+            savs = [None, "gvar"]
+            rng.shuffle(savs)
+            for sv in savs:
+                objs.append({"type": "det", "kind": "mvcapa", "prm": {"scale": sc, "m": 2, "saving": sv, "cfam": fam, "pfam": fam}, "share": False})
+            xa = xb = rng.choice([3, 4, 4])
+        for o, op, xi in [(a, "fit", xa), (b, "fit", xb), (a, "predict", xa), (b, "predict", xb), (b, "transform_scores", xb),
+                          (a, "transform", xb), (a, "transform_scores", xa)]:
+            ops.append({"o": o, "op": op, "X": xi, "arg": 1.0, "cut": 10, "ov": 0})
     return {"objs": objs, "ops": ops, "seed": rng.randint(0, 10**6)}
 
 
@@ -191,15 +232,114 @@ def check_writes(op, target, writes, known):
     return bad
 
 
+_WARM = False
+
+
+def warm():
+    """import everything the library loads lazily and run each kind of object once on one tiny fixed series, in the
+    process all histories are forked from: later forks then start from the same, already initialised, state"""
+    global _WARM
+    if _WARM:
+        return
+    _WARM = True
+    W = pd.DataFrame(np.arange(40.0).reshape(20, 2) % 7)
+    for kind in DET_KINDS:
+        try:
+            d = mk_det(kind, {"scale": 1.0, "m": 2})
+            X = W[[0]] if kind == "stat" else W
+            d.fit(X)
+            d.predict(X)
+            d.transform(X)
+        except Exception:
+            pass
+    for kind in SCORER_KINDS:
+        try:
+            sc = mk_scorer(kind)
+            sc.fit(W)
+        except Exception:
+            pass
+
+
+class Pristine:
+    """a twin of this process forked before the history starts; it never runs a history itself and computes every
+    reference value in a further fork of its untouched state — so a reference cannot be contaminated by module-level
+    state (memo tables, class attributes, mutable defaults) that the history left behind in this process"""
+
+    def __init__(self):
+        import os
+        import pickle
+
+        self.os, self.pickle = os, pickle
+        req_r, self.req_w = os.pipe()
+        self.rep_r, rep_w = os.pipe()
+        self.pid = os.fork()
+        if self.pid == 0:
+            os.close(self.req_w)
+            os.close(self.rep_r)
+            try:
+                rf, wf = os.fdopen(req_r, "rb"), os.fdopen(rep_w, "wb")
+                while True:
+                    try:
+                        job = pickle.load(rf)
+                    except EOFError:
+                        break
+                    res = core.run_forked(_reference, job, 60.0)
+                    pickle.dump(res, wf)
+                    wf.flush()
+            finally:
+                os._exit(0)
+        os.close(req_r)
+        os.close(rep_w)
+        self.wf, self.rf = os.fdopen(self.req_w, "wb"), os.fdopen(self.rep_r, "rb")
+
+    def call(self, job):
+        self.pickle.dump(job, self.wf)
+        self.wf.flush()
+        return self.pickle.load(self.rf)
+
+    def close(self):
+        try:
+            self.wf.close()
+            self.rf.close()
+            self.os.waitpid(self.pid, 0)
+        except Exception:
+            pass
+
+
+def _reference(job):
+    """what a freshly constructed object that received only the relevant calls returns"""
+    try:
+        if job["t"] == "det":
+            ref = mk_det(job["kind"], job["prm"], mk_cost("l2") if job["share"] else None)
+            if job.get("stat_upper") is not None:
+                ref.set_params(stat_upper=job["stat_upper"])
+            ref.fit(job["train"])
+            return {"sig": frame_sig(getattr(ref, job["op"])(job["X"]))}
+        ref = mk_scorer(job["kind"], mk_cost("l2") if job["share"] else None)
+        return {"val": ref.fit(job["F"]).evaluate(np.array([job["cut"]]))}
+    except Exception as ex:
+        return {"exc": type(ex).__name__, "msg": str(ex)[:200]}
+
+
 def run_history(hist):
+    warm()  # no-op when the parent process already did it
+    pristine = Pristine()  # before anything else runs in this process
+    try:
+        return _run_history(hist, pristine)
+    finally:
+        pristine.close()
+
+
+def _run_history(hist, pristine):
     instrument()
     D = datasets(hist["seed"])
     D0 = [x.copy() for x in D]
     shared = mk_cost("l2")
+    shared_inner = mk_inner()
     live, state = [], []
     for o in hist["objs"]:
         if o["type"] == "det":
-            live.append(mk_det(o["kind"], o["prm"], shared if o["share"] else None))
+            live.append(mk_det(o["kind"], o["prm"], shared if o["share"] else None, shared_inner))
             state.append({"prm": dict(o["prm"]), "train": None})
         else:
             live.append(mk_scorer(o["kind"], shared if o["share"] else None))
@@ -276,13 +416,13 @@ def run_history(hist):
                     continue
                 out = getattr(obj, kind)(X)
                 done()
-                ref = fresh_det(i)
-                if "stat_upper" in state[i]:
-                    ref.set_params(stat_upper=state[i]["stat_upper"])
-                ref.fit(tr.copy())
-                want = getattr(ref, kind)(X.copy())
+                want = pristine.call({"t": "det", "kind": meta["kind"], "prm": state[i]["prm"], "share": meta["share"],
+                                      "stat_upper": state[i].get("stat_upper"), "train": tr.copy(), "op": kind, "X": X.copy()})
+                if "exc" in want:
+                    raise {"NotImplementedError": NotImplementedError, "ValueError": ValueError}.get(want["exc"], RuntimeError)(
+                        "reference raised: " + want.get("msg", ""))
                 n_cmp += 1
-                if frame_sig(out) != frame_sig(want):
+                if frame_sig(out) != want["sig"]:
                     viol.append(f"step {step}: {meta['kind']}.{kind} differs from a freshly constructed detector fitted on the same training data "
                                 f"(history so far: {trace[-6:]})")
             elif kind in ("sfit", "mutate-refit"):
@@ -311,8 +451,10 @@ def run_history(hist):
                 try:
                     out = obj.evaluate(np.array([cut]))
                     done()
-                    ref = mk_scorer(meta["kind"], mk_cost("l2") if meta["share"] else None)
-                    want = ref.fit(F.copy()).evaluate(np.array([cut]))
+                    wr = pristine.call({"t": "scorer", "kind": meta["kind"], "share": meta["share"], "F": F.copy(), "cut": cut})
+                    if "exc" in wr:
+                        raise RuntimeError("reference raised: " + wr.get("msg", ""))
+                    want = wr["val"]
                     n_cmp += 1
                     if not np.array_equal(out, want):
                         viol.append(f"step {step}: {meta['kind']}.evaluate({cut}) = {out.tolist()} differs from a freshly constructed scorer fitted on "
@@ -453,9 +595,10 @@ def run(chk: core.Check):
         "interpretations: a scorer's last fit includes refits by a detector holding it; set_params invalidates the fit (sktime resets); "
         "histories that change a shared scorer's parameters directly and predict without refitting are outside the statement and not generated",
         "update(ndarray) raises AttributeError on the current tree: a listed known finding, not generated here (see C11)"]
+    warm()
     rng = core.rng_for(chk.seed, "C10/hist")
     hs = core.Gen(gen_history, rng, L, N)
-    res = chk.run_stream("histories", hs, impl, oracle=oracle, site="histories", per_case_timeout=120,
+    res = chk.run_stream("histories", hs, impl, oracle=oracle, site="histories", per_case_timeout=120, fresh=True,
                          nontrivial=lambda c, r: r.get("compared", 0) >= 3,
                          describe=lambda c: {"objs": [o["kind"] for o in c["objs"]], "ops": [f"{o['op']}@{o['o']}" for o in c["ops"]][:12]})
     chk.notes["outputs_compared"] = sum(r.get("compared", 0) for r in res)
